@@ -698,9 +698,12 @@ func removeReachableWhenDirty(f *Func, g *Graph, victim types.Object, target Loc
 				return true, cached, tested
 			}
 			if as, ok := n.(*ast.AssignStmt); ok {
-				for _, l := range as.Lhs {
+				for li, l := range as.Lhs {
 					if id, ok := l.(*ast.Ident); ok && f.ObjOf(id) == victim {
 						nilness = unk
+						if len(as.Rhs) == len(as.Lhs) && isNilIdent(f, as.Rhs[li]) {
+							nilness = isNil
+						}
 					}
 				}
 			}
